@@ -101,6 +101,7 @@ func runC19(p *eng.Prog, r *eng.Report, tier string) {
 	c.r.Floor("C19.6", "presence guards of optional pointer fields in encoders", ng, 6)
 	c13Discipline(c, "C19.2", c19Pkgs)
 	c19Delegation(c)
+	decoderSkipTypestate(c, "C19.9", inC19, 8)
 	c19FieldCoverage(c)
 	wrapAliasing(c, "C19.5", c19Pkgs)
 	var rels []string
@@ -108,6 +109,7 @@ func runC19(p *eng.Prog, r *eng.Report, tier string) {
 		rels = append(rels, strings.TrimSuffix(p, "."))
 	}
 	enumExhaustive(c, "C19.5", rels)
+	c19EnumLoops(c, "C19.5", inC19)
 }
 
 func c09IterCurrent19(c *cx, f *eng.Fn) {
